@@ -191,7 +191,7 @@ def bindDataclass (e : BEnv) (Γ : Ctx) (cfg : ParserConfig) : Nat → J → Cla
               if var.init then pure (params.set var.name v)
               else do validateFixed e.py var.toVarCore v; pure params) []
           classFactory Γ clazz params
-    | _ => .error (.leaked "AttributeError")            -- `data.keys()`
+    | _ => .error (.parser "Expected an object")          -- `if not isinstance(data, dict): raise ParserError`
 
 /-- `DictDecoder.bind_value(meta, var, value, recursive)` with `bind_complex_type` and
 `bind_derived_value` inlined (`bind_complex_type` is `bindComplexWith`) -/
@@ -267,13 +267,59 @@ def decode (e : BEnv) (Γ : Ctx) (cfg : ParserConfig) (fuel : Nat) (clazz : Clas
       return .list vs
     | d => bindDataclass e Γ cfg fuel d clazz
 
-/-- `JsonParser.parse`: nothing `json.load` raises is translated -/
+/-- `XmlContext.find_type_by_fields(set(keys))`: among the classes that have all the keys as
+local names, the one with the fewest other local names, ties broken by class name -/
+def findTypeByFields (Γ : Ctx) (kvs : List (Str × J)) : Option ClassId :=
+  let cands := Γ.classes.filterMap fun ci =>
+    if localNamesMatch Γ kvs ci.id then
+      match ci.metaFor none with
+      | some m => some (ci.id, ((((allVars m).map (·.localName)).eraseDups).filter (fun n => !kvs.any (·.1 = n))).length)
+      | none => none
+    else none
+  (cands.foldl (fun (best : Option (ClassId × Nat)) c =>
+    match best with
+    | none => some c
+    | some b => if c.2 < b.2 || (c.2 = b.2 && c.1 < b.1) then some c else some b) none).map (·.1)
+
+/-- the tail of `decode`: one `bind_dataclass`, or one per item of an array -/
+def bindAll (e : BEnv) (Γ : Ctx) (cfg : ParserConfig) (fuel : Nat) (clazz : ClassId) : J → Except Err Val
+  | .arr xs => do
+    let vs ← xs.mapM (fun x => bindDataclass e Γ cfg fuel x clazz)
+    return .list vs
+  | d => bindDataclass e Γ cfg fuel d clazz
+
+/-- `DictDecoder.decode(data)` without a target class: `verify_type` → `detect_type`, then as
+before.  (ca8f47f: a first document that is not an object is a ParserError.) -/
+def decodeAuto (e : BEnv) (Γ : Ctx) (cfg : ParserConfig) (fuel : Nat) (data : J) : Except Err Val :=
+  if !data.truthy then .error (.parser "Document is empty, can not detect type")
+  else
+    let first := match data with
+      | .arr (x :: _) => x
+      | d => d
+    match first with
+    | .obj kvs =>
+      match findTypeByFields Γ kvs with
+      | none => .error (.parser "Unable to locate model")
+      | some clazz => bindAll e Γ cfg fuel clazz data
+    | _ => .error (.parser "Document is not an object, can not detect type")
+
+/-- `JsonParser.parse`: `load_json` runs under `except ValueError: raise ParserError`, which
+covers `json.JSONDecodeError`, `UnicodeDecodeError` and the bare `ValueError` of the integer
+digit limit; `RecursionError` is a `RuntimeError` and passes -/
 def parseJson (e : BEnv) (Γ : Ctx) (cfg : ParserConfig) (fuel : Nat) (clazz : ClassId) (listOf : Bool) :
     Loaded → Except Err Val
   | .value j => decode e Γ cfg fuel clazz listOf j
-  | .decodeError => .error (.leaked "JSONDecodeError")
-  | .unicodeError => .error (.leaked "UnicodeDecodeError")
+  | .decodeError => .error (.parser "JSONDecodeError")
+  | .unicodeError => .error (.parser "UnicodeDecodeError")
+  | .intLimit => .error (.parser "ValueError")
   | .recursionError => .error (.leaked "RecursionError")
-  | .intLimit => .error (.leaked "ValueError")
+
+/-- `JsonParser.parse(source)` without a target class -/
+def parseJsonAuto (e : BEnv) (Γ : Ctx) (cfg : ParserConfig) (fuel : Nat) : Loaded → Except Err Val
+  | .value j => decodeAuto e Γ cfg fuel j
+  | .decodeError => .error (.parser "JSONDecodeError")
+  | .unicodeError => .error (.parser "UnicodeDecodeError")
+  | .intLimit => .error (.parser "ValueError")
+  | .recursionError => .error (.leaked "RecursionError")
 
 end Xs.Fault
